@@ -42,7 +42,7 @@ manifest = {
     "hooks": {
         "guard": "verif",
         "enable": "none needed: the checks are static analyses of the unmodified source (go/packages + go/ssa); no hook or instrumentation commit exists in /repo",
-        "baseline_off_cmd": "cd /repo && GOFLAGS=-mod=mod GOPROXY=off GOSUMDB=off go test -vet=off -count=1 ./...",
+        "baseline_off_cmd": 'for m in $(cat /w/out/gomods.txt); do MF=$(cd /repo/$m && . /w/out/goenv.sh && gomodflag); (cd /repo/$m && go test $MF -json -vet=off -count=1 -timeout 25m ./...); done',
         "source_commits": [],
         "add_only": True,
     },
